@@ -89,7 +89,6 @@ def run(model: Model, rep: Report, tier: str) -> None:
     # ---------------------------------------------------------------- R2.2
     f = model.func(f"{ID}.api.identify_outcomes")
     from .idcommon import ID_PRIMS, ID_PRIM_METHODS, IDENTIFY, QUERY
-    from ..setalg import SetAlg, compare, f_not, f_or
     IDC = f"{ID}.id_c.idc"
     ev2 = Evaluator(model, primitives=set(ID_PRIMS) | {IDENTIFY, IDC, IDENT, QUERY}, prim_methods=set(ID_PRIM_METHODS))
     cond_t = typed(ev2, "conditions", ("union", (("set", ("cls", VARIABLE)), "none")))
@@ -121,7 +120,6 @@ def run(model: Model, rep: Report, tier: str) -> None:
     if len(pid_) != 1 or len(pidc) != 1 or others:
         problems.append("the wrapper does not return exactly identify(...) or idc(...) of the query")
     else:
-        from ..setalg import f_and
         g1 = f_and(*[sa2.cond(c) for c in pid_[0].conds])
         if not (compare(g1, isnone)[0] or compare(g1, f_or(isnone, empty))[0] or compare(g1, empty)[0]):
             problems.append("routing: ID is not used exactly when no conditions are given (and IDC otherwise)")
